@@ -28,7 +28,41 @@ class NotReplayable(Exception):
     """the witness is over abstract state that has no concrete counterpart"""
 
 
-ABSTRACT_MARKERS = ('$heap_compiler', '$node', '$value', '$heap_set', '$namespace', '$objset', '$obj', '$anyobj')
+ABSTRACT_MARKERS = ('$heap_compiler', '$node', '$value', '$heap_set', '$anyobj')
+_PLACEHOLDERS = {}
+
+
+class Placeholder:
+    """an object known only by its identity (a cell handed to the tracker)"""
+
+    def __init__(self, name):
+        self.name = name
+
+    def __repr__(self):
+        return f'<{self.name}>'
+
+
+def placeholder(name):
+    if name not in _PLACEHOLDERS:
+        _PLACEHOLDERS[name] = Placeholder(name)
+    return _PLACEHOLDERS[name]
+
+
+def decode_objset(text):
+    """'K(Obj, False)' / 'Store(K(Obj, False), Obj!val!0, True)' ... -> set of placeholders"""
+    import re
+    if 'Lambda' in text or 'If(' in text:
+        raise NotReplayable('identity set given by a lambda in the model')
+    if not text.startswith(('K(Obj, False)', 'Store(')):
+        raise NotReplayable('identity set is not finite in the model')
+    members = {}
+    for name, flag in re.findall(r'(Obj!val!\d+), (True|False)\)', text):
+        members.setdefault(name, flag == 'True')      # innermost stores come first in the text
+    # the outermost Store wins: scan from the right
+    res = {}
+    for name, flag in reversed(re.findall(r'(Obj!val!\d+), (True|False)\)', text)):
+        res.setdefault(name, flag == 'True')
+    return {placeholder(n) for n, f in res.items() if f}
 
 
 def decode(v):
@@ -39,6 +73,15 @@ def decode(v):
         if '$frac' in v:
             fr = fractions.Fraction(v['$frac'][0], v['$frac'][1])
             return float(fr)
+        if '$namespace' in v:
+            import types
+            return types.SimpleNamespace(**{k: decode(x) for k, x in v['$namespace'].items()})
+        if '$objset' in v:
+            return decode_objset(v['$objset'])
+        if '$obj' in v:
+            return placeholder(v['$obj'])
+        if '$dict' in v:
+            return {k: decode(x) for k, x in v['$dict'].items()}
         if '$tuple' in v:
             return tuple(decode(x) for x in v['$tuple'])
         if '$list' in v:
@@ -50,6 +93,12 @@ def decode(v):
             if v.get('build'):
                 return resolve(v['build'])(**fields)
             cls = resolve(v['$record'])
+            if getattr(decode, 'record_mode', False):
+                # record mode: an instance carrying exactly the described fields
+                obj = cls.__new__(cls)
+                for k, x in fields.items():
+                    object.__setattr__(obj, k, x)
+                return obj
             try:
                 return cls(**fields)
             except TypeError as e:
@@ -76,6 +125,9 @@ def native_target(target):
     obj = importlib.import_module(modname)
     parts = qual.split('.')
     for p in parts:
+        half = None
+        if '@' in p:
+            p, half = p.split('@')
         raw = None
         if isinstance(obj, type):
             raw = obj.__dict__.get(p)
@@ -84,7 +136,7 @@ def native_target(target):
                     raw = base.__dict__.get(p)
         if raw is not None:
             if isinstance(raw, property):
-                obj = raw.fget
+                obj = raw.fset if half == 'setter' else raw.fget
             elif isinstance(raw, (staticmethod, classmethod)):
                 obj = raw.__func__
             else:
@@ -107,6 +159,11 @@ def replay(spec):
     cmod = importlib.import_module(spec['contract_module'])
     decode.cmod = cmod
     names = spec['param_order']
+    if spec['kind'] not in ('post', 'raises', 'lemma'):
+        return None, f"not replayable natively: obligation kind {spec['kind']} (loop invariant / frame / call-site precondition)"
+    decode.record_mode = bool(spec.get('record_mode'))
+    if spec.get('record_mode') and spec.get('has_prepare'):
+        return None, 'not replayable natively: the contract abstracts callees / prepares closure or ghost state at engine level'
     try:
         args = [decode(spec['args'][n]) for n in names]
         if not spec.get('native_call') and spec['kind'] != 'lemma':
@@ -132,9 +189,24 @@ def replay(spec):
             call_native(spec, pargs)
         except Exception:
             pass
+    restore = []
+    call_args = args
+    if spec.get('record_mode'):
+        from . import recspec
+        recspec.snapshot(args)
+        fv = spec.get('free_vars') or []
+        if fv:
+            mod = importlib.import_module(spec['target'].split(':')[0])
+            for n, a in zip(names, args):
+                if n in fv:
+                    restore.append((mod, n, getattr(mod, n, None)))
+                    setattr(mod, n, a)
+            call_args = [a for n, a in zip(names, args) if n not in fv]
     try:
-        result = call_native(spec, args)
+        result = call_native(spec, call_args)
     except Exception as e:
+        for mod, n, v in restore:
+            setattr(mod, n, v)
         if kind == 'raises':
             allowed = spec.get('allowed_raises', {})
             for typ, clause in allowed.items():
@@ -145,12 +217,22 @@ def replay(spec):
                     return (not ok), f'raised {type(e).__name__}, allowed-when clause = {ok!r}'
             return True, f'raised {type(e).__name__}: {e}'
         return True, f'raised {type(e).__name__}: {e} (contract expects a normal return)'
+    for mod, n, v in restore:
+        setattr(mod, n, v)
     if kind == 'raises':
         return False, f'returned {result!r} (no exception natively)'
     if kind in ('post',):
         clause = getattr(cmod, spec['clause'])
         try:
             ok = clause(*args, result)
+        except Exception as e:
+            if type(e).__name__ == 'NotNative':
+                return None, f'not replayable natively: the clause uses {e}'
+            return True, f'result {result!r}; clause raised {type(e).__name__}: {e}'
+        return (not ok), f'result {result!r}; clause {spec["clause"]} = {ok!r}'
+    if False:
+        try:
+            ok = True
         except Exception as e:
             return True, f'result {result!r}; clause raised {type(e).__name__}: {e}'
         return (not ok), f'result {result!r}; clause {spec["clause"]} = {ok!r}'
